@@ -2,7 +2,7 @@
 from checks.hub_common import run_hub, replay_hub
 
 PID = "C05"
-RULE = ("histories with leftover locks of every kind (pending, committed primary with unresolved secondaries, rolled-back primary with secondaries left, pessimistic, from transactions later than the snapshot) are built by driving transactions and killing their clients at chosen RPCs; one snapshot timestamp is then read through Get / BatchGet (both implementations) / Iter / IterReverse with cold and warm cache, scan batch sizes 2..6, key-only on/off, bounded and unbounded ranges, a split between two requests; every call and its result is an api event; repin family: one long-lived snapshot object moved with SetSnapshotTS backwards / forwards / to the same ts between reads through all four access paths over keys created, overwritten or deleted between the timestamps; merge family: regions merged between calls and just before the n-th scan request (batch size 2..6, both directions); every snap* call is compared with the model store at the snapshot ts in force; prefix key pool (keys that are proper prefixes of their successors) in half of the merge scenarios; one BatchGet of more than 5120 keys (one region / two regions) per run compared with a scan at the same ts; round 3: committed-primary family (secondaries' locks of a transaction whose primary is committed below / above the snapshot ts, met through every access path); the oracle reads through a lock whose primary is committed at or below the snapshot ts (`visibleL` / `snapRangeL`)")
+RULE = ("histories with leftover locks of every kind (pending, committed primary with unresolved secondaries, rolled-back primary with secondaries left, pessimistic, from transactions later than the snapshot) are built by driving transactions and killing their clients at chosen RPCs; one snapshot timestamp is then read through Get / BatchGet (both implementations) / Iter / IterReverse with cold and warm cache, scan batch sizes 2..6, key-only on/off, bounded and unbounded ranges, a split between two requests; every call and its result is an api event; repin family: one long-lived snapshot object moved with SetSnapshotTS backwards / forwards / to the same ts between reads through all four access paths over keys created, overwritten or deleted between the timestamps; merge family: regions merged between calls and just before the n-th scan request (batch size 2..6, both directions); every snap* call is compared with the model store at the snapshot ts in force; prefix key pool (keys that are proper prefixes of their successors) in half of the merge scenarios; one BatchGet of more than 5120 keys (one region / two regions) per run compared with a scan at the same ts; round 3: committed-primary family (secondaries' locks of a transaction whose primary is committed below / above the snapshot ts, met through every access path); the oracle reads through a lock whose primary is committed at or below the snapshot ts (`visibleL` / `snapRangeL`); round 4: in half of the committed-primary scenarios the gate hands the reader's BatchGet answers over in their other legal form (per-pair lock error lifted to the response-level Error, no pairs; `# lifted <id>`), with the async batch get (two regions) as first contact with the locks in a quarter")
 
 
 def run(a):
